@@ -37,7 +37,8 @@ EXPECT_REACH = ['family.mitm', 'family.cred', 'family.plain', 'mitm.msg1', 'mitm
 INIT_MUT = ('flag_reserved', 'version_minor', 'msgid', 'exch', 'insert_unknown', 'insert_unknown_first', 'dup_payload', 'remove_vendor', 'reorder',
             'downgrade', 'foreign_proposal', 'reorder_transforms', 'nonce', 'nonce_len', 'ke', 'ke_group', 'spi_i', 'spi_r', 'inject_cookie',
             'inject_invalid_ke', 'reserved_octet', 'extra_notify', 'strip_ke')
-AUTH_MUT = ('id_data', 'id_type', 'auth_corrupt', 'auth_reflect', 'auth_guess_psk', 'auth_method', 'swap_id_payload_type', 'drop_auth')
+AUTH_MUT = ('id_data', 'id_type', 'auth_corrupt', 'auth_reflect', 'auth_guess_psk', 'auth_method', 'swap_id_payload_type', 'drop_auth',
+            'skip_auth_create_child', 'skip_auth_create_child', 'skip_auth_rekey_ike', 'skip_auth_informational')
 KNOWN = set(range(33, 47)) - {37, 38}
 
 
@@ -267,6 +268,31 @@ def run(scenario):
                 kind = mit['kind']
                 idp = next((p for p in pls if p['type'] in (R.P_IDi, R.P_IDr)), None)
                 au = next((p for p in pls if p['type'] == R.P_AUTH), None)
+                if kind.startswith('skip_auth'):
+                    # a peer that holds the session keys but no credential: instead of IKE_AUTH it sends the exchange that follows it
+                    # (towards the responder: its request 1; towards the initiator: the responder's own request 0)
+                    keep = [p for p in pls if p['type'] in (R.P_SA, R.P_TSi, R.P_TSr) or (p['type'] == R.P_NOTIFY and p['ntype'] == 16391)]
+                    nonce = {'type': R.P_NONCE, 'data': bytes(r2.getrandbits(8) for _ in range(32))}
+                    exch = 36
+                    if kind == 'skip_auth_create_child':
+                        if not any(p['type'] == R.P_SA for p in keep):
+                            return None
+                        body = [keep[0], nonce] + keep[1:]
+                    elif kind == 'skip_auth_rekey_ike':
+                        if getattr(s, 'offer', None) is None:
+                            return None
+                        sa = copy.deepcopy(s.offer)
+                        for pr in sa['proposals']:
+                            pr['spi'] = bytes(r2.getrandbits(8) for _ in range(8))
+                        grp = next((t['id'] for t in sa['proposals'][0]['transforms'] if t['type'] == 4), 14)
+                        body = [sa, nonce, {'type': R.P_KE, 'group': grp, 'data': R.dh_public(grp, r2.getrandbits(190) + 2)}]
+                    else:
+                        exch, body = 37, [{'type': R.P_NOTIFY, 'proto': 0, 'ntype': 16384, 'spi': b'', 'data': b''}]
+                    hd = {'spi_i': hh['spi_i'], 'spi_r': hh['spi_r'], 'exch': exch, 'I': hh['I'], 'R': False, 'id': 0 if hh['R'] else 1}
+                    new = ip.seal(s, hd, body, bytes(r2.getrandbits(8) for _ in range(16)))
+                    recv = w.net.node_of_addr(meta['dst'])
+                    ctx['rewritten'].append((recv.name if recv else None, bytes(data), new, True))
+                    return [(new, 0.0)]
                 if idp is None or au is None:
                     return None
                 if kind == 'id_data':
